@@ -205,7 +205,7 @@ class C10(Check):
         for mi, m in enumerate(case["members"]):
             # every member is a scenario run of its own: in a fresh fork, so that state kept at module or class level by one run (caches) cannot
             # make the next one agree with it
-            payload = run_one_forked(self._run_member, m, self.per_run_timeout_s)
+            payload = run_one_forked(self._run_member, m, self.per_run_timeout_s * 4)     # the run as a whole is under the pool's time limit
             if not payload.get("ok"):
                 raise HarnessError(f"member {mi} {m['tags']}: {payload.get('error')}\n{payload.get('trace', '')}")
             out_m = payload["result"]
